@@ -373,12 +373,12 @@ def synthesis(chk, prog, degree=3):
             else:
                 hh[n, m], hd[n, m] = P.ZERO, P.ZERO
 
-    def run():
+    def run(frame="NED"):
         it = Interp(prog, oracle=lambda cnd, i: False if cnd.op in (">", "<", "==", "isclose") else None,
                     intercepts={WMM + "::WMM.reset_coefficients": lambda i, a, k: None,
                                 WMM + "::geodetic2spherical": lambda i, a, k: (latp, a[1], r),
                                 "round": lambda i, a, k: a[0]})
-        obj = it.make_obj(WMM + "::WMM", degree=N, c=c.copy(), cd=cd.copy(), epoch=epoch, date_dec=date, date=date, frame="NED")
+        obj = it.make_obj(WMM + "::WMM", degree=N, c=c.copy(), cd=cd.copy(), epoch=epoch, date_dec=date, date=date, frame=frame)
         it.run(f, [latd, lond, h], {"date": None}, self_obj=obj)
         return obj, it
     holder = {}
@@ -424,6 +424,15 @@ def synthesis(chk, prog, degree=3):
     for nm, ref in (("X", Xr), ("Y", Yp), ("Z", Zr)):
         chk.ob("SYNTHESIS", "%s::WMM.magnetic_field::%s(degree %d)" % (WMM, nm, N), "%s == Schmidt semi-normalised synthesis of symbolic coefficients (degree %d)" % (nm, N),
                lambda nm=nm, ref=ref: eq(get().attrs[nm], ref, nm), construct="%s == reference synthesis" % nm, **kw)
+    # the ENU frame is the same vector with north/east swapped and the vertical negated
+
+    def enu():
+        o_enu, _ = run("ENU")
+        o_ned = get()
+        return all_of(eq(o_enu.attrs["X"], o_ned.attrs["Y"], "X_enu == Y_ned (east)"), eq(o_enu.attrs["Y"], o_ned.attrs["X"], "Y_enu == X_ned (north)"),
+                      eq(o_enu.attrs["Z"], -o_ned.attrs["Z"], "Z_enu == -Z_ned (up)"))
+    chk.ob("SYNTHESIS.enu", WMM + "::WMM.magnetic_field::ENU", "with frame='ENU' the components are (east, north, up) = (Y, X, -Z) of the NED synthesis", enu,
+           construct="ENU components", **kw)
     # k[m, n] symbolically
     den = prog.func(WMM + "::WMM.denormalize_coefficients")
 
@@ -492,6 +501,10 @@ def canaries(chk, prog):
 
 
 def run(chk, prog, tier):
+    # the constructor route evaluates the same method with every argument forwarded, and the derived elements follow from the stored components (rules of C15)
+    from props.c15 import ctor_route as _ctor_route, elements as _elements
+    _ctor_route(chk, prog)
+    _elements(chk, prog)
     # the epoch subtracted from the date and the coefficient tables come from the same, freshly selected file on every path (rule shared with C15)
     from props.c15 import reload_rule
     reload_rule(chk, prog)
